@@ -1,0 +1,44 @@
+// Copyright 2026 SCION Association
+//
+// Licensed under the Apache License, Version 2.0 (the "License");
+// you may not use this file except in compliance with the License.
+// You may obtain a copy of the License at
+//
+//   http://www.apache.org/licenses/LICENSE-2.0
+//
+// Unless required by applicable law or agreed to in writing, software
+// distributed under the License is distributed on an "AS IS" BASIS,
+// WITHOUT WARRANTIES OR CONDITIONS OF ANY KIND, either express or implied.
+// See the License for the specific language governing permissions and
+// limitations under the License.
+
+//go:build verif
+
+package dispatcher
+
+import (
+	"net/netip"
+
+	"github.com/scionproto/scion/pkg/addr"
+)
+
+// This file exports the packet processing of the shim dispatcher to the model-based
+// verification harness. It adds no behavior; it is only compiled with the build tag "verif".
+
+// VerifNewServer creates a Server that is not attached to a socket. With isDispatcher set the
+// server processes packets as a dispatcher; the underlay destination address, which Serve reads
+// from the socket's control messages, is passed to VerifProcessMsgNextHop directly.
+func VerifNewServer(isDispatcher bool, svcAddrs map[addr.Addr]netip.AddrPort) *Server {
+	s := NewServer(false, svcAddrs, nil)
+	s.isDispatcher = isDispatcher
+	return s
+}
+
+// VerifProcessMsgNextHop runs Server.processMsgNextHop on one received datagram.
+func (s *Server) VerifProcessMsgNextHop(
+	buf []byte,
+	underlay netip.Addr,
+	prevHop netip.AddrPort,
+) ([]byte, netip.AddrPort, error) {
+	return s.processMsgNextHop(buf, underlay, prevHop)
+}
